@@ -7,6 +7,7 @@
 use vstd::prelude::*;
 use std::marker::PhantomData;
 verus! {
+//@prelude std_combinators
 
 // std: core::mem::replace has no vstd specification in this Verus build (trusted, standard semantics)
 pub assume_specification<T>[core::mem::replace::<T>](dest: &mut T, src: T) -> (r: T)
